@@ -90,7 +90,9 @@ def run(only=None):
             rc, out = run_check(meta['property'], copy)
             want = 1 if meta.get('check_exit') == 1 else 0
             ok = (rc == want) if want == 1 else (rc in (0, 2))
-            print('selftest %s (%s): exit %d, expected %s -> %s' % (meta['id'], meta['property'], rc, 'VIOLATION' if want else 'documented miss', 'ok' if ok else 'UNEXPECTED'))
+            vl = [l for l in out.split('\n') if l.startswith('VIOLATION')]
+            ce = 'with a concrete failing input' if vl and any('no-failing-input-found' not in l for l in vl) else ('no-failing-input-found' if vl else '')
+            print('selftest %s (%s): exit %d, expected %s -> %s %s' % (meta['id'], meta['property'], rc, 'VIOLATION' if want else 'documented miss', 'ok' if ok else 'UNEXPECTED', ce))
             if not ok:
                 bad += 1
         for prop, rel, pat, rep, desc in HARMLESS:
